@@ -19,10 +19,12 @@ func monitor(rep *emit.Report, c *caseRun) {
 	thr := w.Epochs[0].Thr
 	epoch := 0
 	pendingTarget := int64(-1)
+	transitionTarget := int64(-1)
 	for i, s := range c.steps {
 		in := map[string]interface{}{"case": c.desc, "step": i, "event": s.ev, "obs": s.obs}
 		if s.ev.Kind == "transition" {
 			pendingTarget = c.r.lastTarget
+			transitionTarget = c.r.lastTarget
 		}
 		if s.ev.Kind == "part" && !s.obs.Rejected && s.obs.Valid {
 			idx, err := w.Sch.ThresholdScheme.IndexOf(c.t.bytes[c.t.id(nil)])
@@ -42,6 +44,17 @@ func monitor(rep *emit.Report, c *caseRun) {
 				contrib[k] = map[int]bool{}
 			}
 			contrib[k][w.Me] = true
+		}
+		// C07 / C03: once the last pre-transition round is stored only shares of the new group count:
+		// a partial that does not verify against the NEW group's polynomial must be refused
+		if s.ev.Kind == "part" && transitionTarget >= 0 && int64(s.obs.HeadBefore) >= transitionTarget && s.ev.Round > s.obs.HeadBefore {
+			newEp := w.Epochs[len(w.Epochs)-1]
+			okNew := w.Sch.ThresholdScheme.VerifyPartial(newEp.PubPoly, w.Digest(s.ev.Round, s.obs.PrevBytes), s.obs.SigBytes) == nil
+			cur := common.CurrentRound(s.obs.Now, per, w.Genesis)
+			if !okNew && !s.obs.Rejected && s.ev.Round <= cur+1 {
+				rep.Fail("C07-stale-share-partial-accepted-after-switch", "after the last pre-transition round was stored, a partial that does not verify under the new group's polynomial was not refused", in)
+				rep.Fail("C03-stale-share-partial-accepted-after-switch", "a partial that is not valid for the live (new) group was accepted and can count towards the threshold", in)
+			}
 		}
 		// C04: partial for a round beyond clock+1 must be refused
 		if s.ev.Kind == "part" {
